@@ -62,7 +62,7 @@ notes = {
  "C02": "Trusted: x86ref decoder and MemSpec linear-form comparison. Displacements that do not fit the address width are outside the model. No known finding is left: the five defects found in calculateModRM (index-only, EBP base without displacement, 16-bit registers under BITS 32, zero SIB byte, mixed register widths) were repaired.",
  "C18": "Trusted: x86ref encoder/decoder pair (26k pairs self-checked per run). Only statements that decode to the source instruction are judged.",
  "C01": "Trusted: x86ref decoder (written from the SDM opcode maps; self-checked; cross-checked against objdump where present). Statements gosk refuses with an error are not judged (DESIGN.md section 5). No known finding is left.",
- "C05": "Trusted: the directive reference model (a few lines per directive), sentinel DB lines (members of the explored space), worker = cmd/gosk pipeline (gen.Parse + frontend.Exec), re-confirmed through the real CLI for every reported failure.",
+ "C05": "Trusted: the directive reference model (a few lines per directive), sentinel DB lines (members of the explored space), worker = cmd/gosk pipeline (gen.Parse + frontend.Exec), re-confirmed through the real CLI for every reported failure. Known finding C05-F01: through the command, non-ASCII string operands are decoded as Shift_JIS and emitted as UTF-8 (exploration cli_strings).",
 }
 na = {}
 def main():
@@ -95,7 +95,7 @@ def main():
      "engines":[{"name":"verifengine","path":"engine/","serves_properties":sorted(claimed),"kind_free_text":"hand-written stateless choice-tree DFS explorer (replay-based, deviation-bounded) + BFS history explorer, driving worker subprocesses that run the real gosk pipeline"}],
      "checks":checks,
      "not_applicable":not_app,
-     "notes":"known_findings.jsonl holds fixed entries only (no finding is left). fix: commits in /repo: "+"; ".join(f for f in fixes if " fix:" in f)
+     "notes":"known_findings.jsonl holds one finding (C05-F01: non-ASCII string operands are transcoded by the command) and fixed entries. fix: commits in /repo: "+"; ".join(f for f in fixes if " fix:" in f)
     }
     json.dump(m,open("MANIFEST.json","w"),indent=1)
 main()
